@@ -157,6 +157,33 @@ func (s *State) assume1(t *Term, rw bool) {
 				s.eqs = map[string]*Term{}
 			}
 			s.eqs[a.String()] = b
+		} else if !a.IsLit && !b.IsLit && a.Sort == SInt && isAtomTerm(a) && isAtomTerm(b) && a.Size() < 12 && b.Size() < 12 {
+			// equal atoms (fields, variables): orient towards the smaller name
+			as, bs := a.String(), b.String()
+			if as != bs {
+				if len(as) < len(bs) || (len(as) == len(bs) && as < bs) {
+					a, b, as, bs = b, a, bs, as
+				}
+				if s.eqs == nil {
+					s.eqs = map[string]*Term{}
+				}
+				if _, dup := s.eqs[as]; !dup {
+					s.eqs[as] = b
+				}
+			}
+		} else if !a.IsLit && !b.IsLit && a.Sort == SInt && (isLenOfVar(a) != isLenOfVar(b)) {
+			// len(x) = e for a slice variable x (typically a callee's result length)
+			if isLenOfVar(b) {
+				a, b = b, a
+			}
+			if b.Size() < 40 && !strings.Contains(b.String(), a.String()) {
+				if s.eqs == nil {
+					s.eqs = map[string]*Term{}
+				}
+				if _, dup := s.eqs[a.String()]; !dup {
+					s.eqs[a.String()] = b
+				}
+			}
 		}
 	}
 	s.pc = append(s.pc, t)
@@ -184,6 +211,24 @@ func (s *State) knownCond(c *Term) *Term {
 		}
 	}
 	return c
+}
+
+// isAtomTerm: a variable or a (nested) heap read.
+func isAtomTerm(t *Term) bool {
+	if t.IsLit {
+		return false
+	}
+	if len(t.Args) == 0 {
+		return true
+	}
+	if t.Op == "select" && len(t.Args) == 2 {
+		return (len(t.Args[0].Args) == 0) && isAtomTerm(t.Args[1])
+	}
+	return false
+}
+
+func isLenOfVar(t *Term) bool {
+	return t.Op == "s.len" && len(t.Args) == 1 && len(t.Args[0].Args) == 0 && !t.Args[0].IsLit
 }
 
 // normInt rewrites an Int term with the literal equalities known on this path.
@@ -246,6 +291,7 @@ type Flow struct {
 	Kind  flowKind
 	Label string
 	Ret   []*Term
+	Pos   token.Pos
 }
 
 // ---------------- obligations ----------------
@@ -693,7 +739,10 @@ func (v *Verifier) typeFacts(s *State, x *Term, t types.Type) *Term {
 			return Lt(x, s.alloc)
 		}
 		return And(Le(IntLit(0), x), Lt(x, s.alloc))
-	case *types.Map, *types.Chan, *types.Signature:
+	case *types.Signature:
+		// declared functions and literals are negative constants; closures are references
+		return Lt(x, s.alloc)
+	case *types.Map, *types.Chan:
 		return And(Le(IntLit(0), x), Lt(x, s.alloc))
 	case *types.Interface:
 		return And(Le(IntLit(0), IType(x)), Lt(IVal(x), s.alloc), Implies(Eq(IType(x), IntLit(0)), Eq(IVal(x), IntLit(0))))
